@@ -76,7 +76,7 @@ type verifC31Reg struct {
 // entry of the same type and major version with the highest version registered so far.
 func VerifC31CompatibleSet() {
 	types := []Type{"alpha-type", "beta-type"}
-	vers := []string{"v1.0.0", "v1.2.0", "v2.0.1", "v1.2.0-rc1"}[:verifrt.Bound("setversions", 3, 4)]
+	vers := []string{"v1.0.5", "v1.2.0", "v2.0.1", "v1.2.0-rc1"}[:verifrt.Bound("setversions", 3, 4)]
 	st := NewCompatibleSet[int](8)
 	var regs []verifC31Reg
 	nops := verifrt.Bound("ops", 4, 5)
